@@ -360,7 +360,8 @@ fn random_cfg(rng: &mut Rng, n: usize, outside_threads: usize) -> Cfg {
         ext,
         low: !ext && rng.chance(1, 4),
         cent: rng.chance(2, 3),
-        bo: threads <= outside_threads && rng.chance(1, 4),
+        // HBALL_BO_ALWAYS=1 (probe only): build outside even when the pool is larger than the global one
+        bo: (threads <= outside_threads && rng.chance(1, 4)) || std::env::var("HBALL_BO_ALWAYS").is_ok(),
     }
 }
 
@@ -400,7 +401,7 @@ pub fn run(seed: u64, count: usize, maxn: usize, mode: &str, out: &mut impl Writ
             let r = run_case(&g, weights.as_deref(), hll8, log2m, hseed, ub, cfg);
             let trace = take_trace();
             let mut line = format!(
-                "hball id={gid}.{k} grp={gid} fam={fam} n={n} arcs={m} g={} w={} kind={} log2m={log2m} seed={hseed} ub={} t={} gran={} tr={} store={} api={} cent={} bo={}",
+                "hball id={gid}.{k} grp={gid} fam={fam} n={n} arcs={m} g={} w={} kind={} log2m={log2m} seed={hseed} ub={} t={} gran={} tr={} store={} api={} cent={} bo={} gp={outside_threads}",
                 fmt_lists(&g),
                 weights.as_ref().map_or("-".to_string(), |w| if w.is_empty() { "-".into() } else { fmt_ints(w) }),
                 if hll8 { "hll8" } else { "hll" },
